@@ -23,6 +23,53 @@ int main(int argc, char ** argv)
   std::ifstream in(argv[1]);
   std::string line;
   long idx = -1;
+  if (shard < 4) {
+    // scripted history on one object: a gA request that fails because its table cannot be read (data directory wrong), an ordinary
+    // life, reset(), the data directory put right - the legal gA request must then be accepted as on a new object
+    const char * good = getenv("BXDECAY0_DBD_GA_DATA_DIR");
+    static const char * ISO[] = {"Se82", "Mo100", "Cd116", "Nd150"};
+    static const bxdecay0::dbd_mode_type GA[] = {bxdecay0::DBDMODE_21, bxdecay0::DBDMODE_22, bxdecay0::DBDMODE_23, bxdecay0::DBDMODE_24};
+    if (good != nullptr) {
+      const std::string keep = good;
+      auto request = [&](bxdecay0::decay0_generator & G, const char * iso, bxdecay0::dbd_mode_type m) {
+        try {
+          G.set_decay_category(bxdecay0::decay0_generator::DECAY_CATEGORY_DBD);
+          G.set_decay_isotope(iso);
+          G.set_decay_dbd_level(0);
+          G.set_decay_dbd_mode(m);
+          Tape t(seed, 4242);
+          G.initialize(t);
+          bxdecay0::event e;
+          G.shoot(t, e);
+          return std::string();
+        } catch (std::exception & x) {
+          return std::string(x.what());
+        }
+      };
+      for (int variant = 0; variant < 4; variant++) {
+        bxdecay0::decay0_generator G, F;
+        // (an existing directory without the table: the failure then comes from the table loader itself)
+        std::string empty_dir = argv[1];
+        empty_dir = empty_dir.substr(0, empty_dir.find_last_of('/'));
+        setenv("BXDECAY0_DBD_GA_DATA_DIR", variant % 2 == 0 ? empty_dir.c_str() : "/nonexistent/bxdecay0-gA-data", 1);
+        std::string e1 = request(G, ISO[shard], GA[shard]);
+        setenv("BXDECAY0_DBD_GA_DATA_DIR", keep.c_str(), 1);
+        if (variant >= 2) {
+          // an ordinary life in between, entered by just correcting the settings of the un-initialised object (no reset() first)
+          request(G, "Mo100", bxdecay0::DBDMODE_1);
+        }
+        G.reset();
+        std::string e2 = request(G, ISO[shard], GA[shard]);
+        std::string ef = request(F, ISO[shard], GA[shard]);
+        if (e1.empty()) fprintf(OUT, "P gA request accepted although the data directory does not exist\n");
+        if (e2.empty() != ef.empty())
+          fprintf(OUT, "P %s/0/gA mode %d after a failed table load%s and reset(): %s; a new object: %s\n", ISO[shard], (int)GA[shard], variant >= 2 ? ", an ordinary life" : "",
+                  e2.empty() ? "accepted" : ("refused (" + e2.substr(0, 90) + ")").c_str(), ef.empty() ? "accepted" : ("refused (" + ef.substr(0, 90) + ")").c_str());
+        else
+          fprintf(OUT, "P ok\n");
+      }
+    }
+  }
   while (std::getline(in, line)) {
     idx++;
     if (line.empty() || (idx % nshards) != shard) continue;
